@@ -207,8 +207,15 @@ def bounded_expand(assertions, B):
     conjunction, so `sat` of the result is a genuine `sat` (used for counterexamples and covers);
     `unsat` of the result says nothing."""
     side = []
+    memo = {}   # shared sub-terms are expanded once (every walked term is closed; the cached results keep the keys' ASTs alive)
 
     def walk(e):
+        k_ = e.get_id()
+        if k_ not in memo:
+            memo[k_] = (e, walk_(e))
+        return memo[k_][1]
+
+    def walk_(e):
         if z3.is_quantifier(e):
             if e.num_vars() == 1 and e.var_sort(0) == z3.IntSort():
                 body = e.body()
